@@ -11,6 +11,7 @@ the text shown for the URL decodes (entities) to text containing the payload as 
 decoding); JSON - the body parses as JSON and the Content-Type is application/json.
 """
 import html
+import os
 import itertools
 import re
 import json
@@ -21,20 +22,22 @@ from vf import core, sut, wsgi
 
 ID = 'C20'
 TITLE = 'Framework error pages never reflect request data unescaped'
-ENGINE = 'E-ENUM (payloads x injection positions x error kinds x renderings through Ombott.__call__)'
+ENGINE = ('E-ENUM (payloads x injection positions x error kinds x renderings through Ombott.__call__) + E-SCHED (a JSON and an HTML '
+          'client failing at the same time)')
 RULE = ('states = distinct (payload, position, error kind, rendering) requests; transitions = WSGI calls; non-trivial = '
         'payloads containing a markup, quote, brace or ampersand character')
 ASSUMPTIONS = ['debug off; error bodies raised by application code with its own text are not framework-generated',
                'the structural comparison uses Python html.parser as the reference HTML tokenizer']
 MANIFEST = {
-    'engines': ['E-ENUM'],
-    'technique': 'bounded-exhaustive enumeration of markup/format-string payloads in five request positions for five '
+    'engines': ['E-ENUM', 'E-SCHED'],
+    'technique': 'bounded-exhaustive enumeration of markup/format-string payloads in eight request positions for eight '
                  'framework error kinds and two renderings; oracle = HTML token-sequence equality with a benign baseline + '
-                 'no verbatim payload + entity-decoded text contains the payload; JSON validity',
+                 'no verbatim payload + entity-decoded text contains the payload; JSON validity; stateless exploration of all '
+                 'two-thread schedules (preemption-bounded) of a JSON client and an HTML client failing together',
     'text': 'All strings over a 10-symbol markup/quote/brace alphabet up to length 3 (thorough 4) and format-string '
             'probes are injected into path, query string, Host, X-Forwarded-Host and X-Forwarded-Proto of requests ending '
-            'in 404, 405, 400, 500 and the last-resort page; PATH_INFO without a leading slash is a position of its own; the HTML token stream must equal the benign baseline and the '
-            'JSON rendering must be valid JSON.',
+            'in 404, 405, 400, 500 and the last-resort page; PATH_INFO without a leading slash is a position of its own; the raw request target some servers put into REQUEST_URI / RAW_URI and an application with a domain_map are covered; the HTML token stream must equal the benign baseline and the '
+            'JSON rendering must be valid JSON, also when a JSON client and an HTML client fail at the same time on two threads (all schedules with <=1, thorough 2, preemptions).',
     'note': 'Bounds: payload length <=4 over the listed alphabet + probes. Trusted: CPython html.parser / json.',
 }
 
@@ -65,6 +68,10 @@ def shards(tier, seed):
             for first in ALPHA:
                 out.append((kind, pos, first, n))
             out.append((kind, pos, None, None))      # the probes
+    # E-SCHED layer: the rendering (JSON / HTML) is chosen per request, also when two requests fail at the same time
+    for kind in ('404', '500', '405'):
+        for start in (0, 1):
+            out.insert(0, ('threads', kind, start, 1 if tier == 'quick' else 2))
     # seed extension: one more character in the payload alphabet (all payloads <= 2 containing it)
     for pos in POSITIONS:
         out.append(('debugfirst', pos, None, None))
@@ -77,7 +84,7 @@ def bounds(tier, seed):
             'error_kinds': KINDS, 'renderings': ['html', 'json']}
 
 
-FLOORS = {'html_pages': 5000, 'json_pages': 2000, 'critical_pages': 500, 'markup_payloads': 3000}
+FLOORS = {'schedules': 500, 'html_pages': 5000, 'json_pages': 2000, 'critical_pages': 500, 'markup_payloads': 3000}
 
 
 class Events(HTMLParser):
@@ -241,7 +248,64 @@ def judge(apps, kind, pos, payload, as_json, baseline, core_alphabet=True):
     return None
 
 
+HERE = os.path.abspath(__file__)
+
+
+def run_threads(om, kind, prefix):
+    """two clients fail the same way at the same time on one application: one asks for JSON, one for HTML"""
+    from vf.sched import Scheduler
+    apps = Apps(om)
+    payload = '<b>"x"'
+    progs = [lambda: apps.request(kind, 'query', payload, True), lambda: apps.request(kind, 'query', payload, False)]
+    sp = os.path.join(os.path.realpath(sut.SRC), 'ombott') + os.sep
+    return Scheduler(progs, prefix, lambda fn: fn.startswith(sp) or fn == HERE).run()
+
+
+def judge_threads(kind, x):
+    if x.hung:
+        return 'threads:hang', 'a thread did not finish'
+    for t, e in x.errors.items():
+        return 'threads:error', f'thread {t} raised {type(e).__name__}: {e}'
+    j, h = x.results[0], x.results[1]
+    for c, what in ((j, 'JSON'), (h, 'HTML')):
+        if c.code != expected_status(kind):
+            return 'threads:status', f'the {what} client got {c.status}, expected {expected_status(kind)}'
+    if not (j.header('Content-Type') or '').startswith('application/json'):
+        return 'threads:json-ctype', f'the client that asked for JSON got Content-Type {j.header("Content-Type")!r}: {j.body[:80]!r}'
+    try:
+        json.loads(j.body.decode('utf8', 'replace'))
+    except ValueError as e:
+        return 'threads:json-invalid', f'the client that asked for JSON got a body that is not JSON ({e}): {j.body[:80]!r}'
+    if not (h.header('Content-Type') or '').startswith('text/html') or '<b>' in h.body.decode('utf8', 'replace'):
+        return 'threads:html', f'the client that asked for HTML got {h.header("Content-Type")!r} {h.body[:120]!r}'
+    return None
+
+
+def work_threads(spec):
+    from vf.sched import explore
+    _, kind, start, bound = spec
+    res = core.new_result()
+    om = sut.load()
+    c = res['counters']
+    for prefix, x in explore(lambda p: run_threads(om, kind, p), bound, base=(start,)):
+        res['states'] += 1
+        res['transitions'] += len(x.points)
+        c['schedules'] += 1
+        if x.switches:
+            res['nontrivial'] += 1
+        v = judge_threads(kind, x)
+        res['outcomes'].add(f'threads {kind} -> {"ok" if v is None else v[0]}')
+        if v is not None:
+            core.add_violation(res, {'kind': 'threads', 'error_kind': kind, 'choices': list(x.choices)},
+                               f'{kind} for a JSON client and an HTML client on two threads, {x.switches} switches: {v[1]}', sig=v[0])
+    res['execs'] = res['states']
+    core.add_sample(res, {'threads': ['JSON client', 'HTML client'], 'error_kind': kind, 'first_thread': start, 'preemption_bound': bound, 'schedules': c['schedules']})
+    return res
+
+
 def work(spec):
+    if spec[0] == 'threads':
+        return work_threads(spec)
     kind, pos, first, n = spec
     res = core.new_result()
     om = sut.load()
@@ -305,6 +369,15 @@ def work(spec):
 
 
 def replay(case):
+    if case.get('kind') == 'threads':
+        om = sut.load()
+        x = run_threads(om, case['error_kind'], tuple(case['choices']))
+        v = judge_threads(case['error_kind'], x)
+        if v is None:
+            return None
+        sw = [(i, ch) for i, ch in enumerate(x.choices) if ch]
+        return (f'one application, two threads, both requests end in {case["error_kind"]}: one client sends Accept: application/json, the other does not; '
+                f'switches at {sw[:8]}: {v[1]}')
     om = sut.load(fresh=bool(case.get('debug_first')))
     apps = Apps(om, debug_first=bool(case.get('debug_first')))
     k, p = case['kind'], case['pos']
